@@ -18,6 +18,7 @@ from __future__ import annotations
 
 import itertools
 import json
+import os
 import random
 import re
 from concurrent.futures import ThreadPoolExecutor
@@ -71,50 +72,58 @@ def _tlc_job(job):
     name, module, consts, invs, extra, label = job
     wd = tlc.workdir(label)
     cfg = tlc.write_cfg(wd / "mc.cfg", constants=consts, invariants=invs)
-    per = max(2, tlc.DEFAULT_WORKERS // 4)
+    per = max(2, tlc.DEFAULT_WORKERS // 4) if label.startswith('C18_mc') or label == 'C18_sens0' else 1
     return name, tlc.run(SPEC / module, cfg, label=label, timeout=3000, workers=per, extra=extra)
 
 
-def run_jobs(jobs, par=4):
+def run_jobs(jobs, par=None):
+    """Run TLC jobs concurrently (each with a few workers); results in job order."""
+    par = par or max(2, tlc.DEFAULT_WORKERS // 3)
     with ThreadPoolExecutor(max_workers=par) as ex:
         return list(ex.map(_tlc_job, jobs))
 
 
-def model_check(chk, tier):
+def mc_jobs(tier):
     q = tier == "quick"
     K4 = ["G", "PN", "LWW", "OR"]
     clean = [
         ("Clocks Dev={} 3 nodes", "Clocks.tla", clock_consts(3, 4 if q else 5, 1), CLOCK_INVS),
-        ("Clocks Dev={} 2 nodes", "Clocks.tla", clock_consts(2, 4 if q else 6, 2 if q else 1), CLOCK_INVS),
+        ("Clocks Dev={} 2 nodes", "Clocks.tla", clock_consts(2, 4 if q else 5, 2), CLOCK_INVS),
+        ("Crdt Dev={} store 2 replicas", "Crdt.tla",
+         crdt_consts(2, ["G", "OR"] if q else ["G", "PN", "OR"], ["x"], 5 if q else 6, store=True, dup=True),
+         CRDT_INVS),
         ("Crdt Dev={} plain 2 replicas all kinds", "Crdt.tla",
-         crdt_consts(2, K4, ["x", "y"], 4 if q else 5, maxinc=2), CRDT_INVS),
+         crdt_consts(2, K4, ["x"] if q else ["x", "y"], 4 if q else 5, maxinc=1 if q else 2), CRDT_INVS),
         ("Crdt Dev={} plain 3 replicas", "Crdt.tla",
          crdt_consts(3, K4 if not q else ["OR", "G"], ["x"], 4 if q else 5), CRDT_INVS),
-        ("Crdt Dev={} store 2 replicas", "Crdt.tla",
-         crdt_consts(2, ["G", "OR"] if q else ["G", "PN", "OR"], ["x"], 6 if q else 7, store=True, dup=not q),
-         CRDT_INVS),
     ]
     if not q:
+        clean.append(("Clocks Dev={} 4 nodes", "Clocks.tla", clock_consts(4, 4, 1), CLOCK_INVS))
+        clean.append(("Crdt Dev={} store 2 replicas G 7 steps", "Crdt.tla",
+                      crdt_consts(2, ["G"], ["x"], 7, store=True), CRDT_INVS))
         clean.append(("Crdt Dev={} plain OR int element", "Crdt.tla",
                       crdt_consts(2, ["OR"], ["#1", "x"], 5), CRDT_INVS))
         clean.append(("Crdt Dev={} store 3 replicas", "Crdt.tla",
                       crdt_consts(3, ["G", "OR"], ["x"], 6, store=True), CRDT_INVS))
-    sens = [(d, "Clocks.tla", clock_consts(2, 3, 1, [d]), CLOCK_INVS) for d in CLOCK_DEVS]
-    sens += [
+    sens = [
+        ("store_adopts_remote_node_id", "Crdt.tla",      # deepest counterexample (7 actions): value/convergence
+         crdt_consts(2, ["G"], ["x"], 7, store=True, dev=["store_adopts_remote_node_id"]), CRDT_INVS[:4]),
         ("orset_remove_without_tombstone", "Crdt.tla",
          crdt_consts(2, ["OR"], ["x"], 4, dev=["orset_remove_without_tombstone"]), CRDT_INVS),
         ("to_dict_stringifies_elements", "Crdt.tla",
          crdt_consts(2, ["OR"], ["#1"], 3, dev=["to_dict_stringifies_elements"]), CRDT_INVS),
-        ("store_adopts_remote_node_id", "Crdt.tla",
-         crdt_consts(2, ["G"], ["x"], 7, store=True, dev=["store_adopts_remote_node_id"]), CRDT_INVS),
         ("gcounter_merge_adds", "Crdt.tla", crdt_consts(2, ["G"], ["x"], 3, dev=["gcounter_merge_adds"]),
          CRDT_INVS),
         ("lww_merge_takes_remote", "Crdt.tla", crdt_consts(2, ["LWW"], ["x"], 4, dev=["lww_merge_takes_remote"]),
          CRDT_INVS),
     ]
+    sens += [(d, "Clocks.tla", clock_consts(2, 3, 1, [d]), CLOCK_INVS) for d in CLOCK_DEVS]
     jobs = [(n, m, c, i, None, f"C18_mc{k}") for k, (n, m, c, i) in enumerate(clean)]
     jobs += [(n, m, c, i, None, f"C18_sens{k}") for k, (n, m, c, i) in enumerate(sens)]
-    results = run_jobs(jobs)
+    return jobs
+
+
+def mc_consume(chk, jobs, results):
     for (name, res), job in zip(results, jobs):
         if job[5].startswith("C18_mc"):
             chk.add_tlc(name, res)
@@ -158,32 +167,38 @@ def label_to_action(lab):
     return [m[name], *args]
 
 
-def crdt_tours(chk, tier, rng, dev):
-    """Transition tours of small as-code Crdt.tla graphs -> schedules [(kind, nr, store, el, actions)]."""
+def tour_confs(tier, dev):
     q = tier == "quick"
     K4 = ["G", "PN", "LWW", "OR"]
     confs = [
+        ("store2", 2, crdt_consts(2, ["G", "OR"], ["x"], 4 if q else 6, store=True, dup=True, dev=dev), True, ["x"]),
         ("plain2", 2, crdt_consts(2, K4, ["x"], 4, dev=dev), False, ["x"]),
-        ("plain3_or", 3, crdt_consts(3, ["OR", "G"], ["x"], 3 if q else 4, dev=dev), False, ["x"]),
         ("plain2_int", 2, crdt_consts(2, ["OR"], ["#1"], 4, dev=dev), False, ["#1", "1"]),
-        ("store2", 2, crdt_consts(2, ["G", "OR"], ["x"], 5 if q else 6, store=True, dup=True, dev=dev), True, ["x"]),
+        ("plain3_or", 3, crdt_consts(3, ["OR", "G"], ["x"], 3 if q else 4, dev=dev), False, ["x"]),
     ]
     if not q:
         confs.append(("plain2_xy", 2, crdt_consts(2, ["OR", "PN"], ["x", "y"], 4, dev=dev, maxinc=2), False,
                       ["x", "y"]))
         confs.append(("store3", 3, crdt_consts(3, ["G"], ["x"], 5, store=True, dev=dev), True, ["x"]))
+    return confs
+
+
+def tour_jobs(confs):
     jobs = []
     for k, (name, nr, consts, store, el) in enumerate(confs):
         wd = tlc.workdir(f"C18_tour{k}")
         jobs.append((name, "Crdt.tla", consts, [], ["-dump", "dot,actionlabels", str(wd / "g.dot")], f"C18_tour{k}"))
-    results = run_jobs(jobs)
+    return jobs
+
+
+def tour_consume(chk, confs, results):
+    """Transition tours of small as-code Crdt.tla graphs -> schedules (kind, nr, store, el, actions, origin)."""
     scheds, total_edges = [], 0
     for k, ((name, res), (cname, nr, consts, store, el)) in enumerate(zip(results, confs)):
         chk.add_tlc(f"Crdt as-code state graph {cname}", res, count=False, note="dot dump for the transition tour")
         g, inits = light_dot(tlc.WORK / f"C18_tour{k}" / "g.dot")
         total_edges += g.n_edges()
-        paths = list(tlc.edge_tour(g))
-        for root, p in paths:
+        for root, p in tlc.edge_tour(g):
             scheds.append((inits[root], nr, store, el, [label_to_action(lab) for lab, _ in p], f"tour:{cname}"))
         (tlc.WORK / f"C18_tour{k}" / "g.dot").unlink(missing_ok=True)
     chk.extra["crdt_tour_edges"] = total_edges
@@ -191,16 +206,22 @@ def crdt_tours(chk, tier, rng, dev):
     return scheds
 
 
-def clock_histories(chk, tier):
-    q = tier == "quick"
-    confs = [(3, 3, 1), (2, 4, 1)] if q else [(3, 4, 1), (2, 5, 1), (3, 3, 2)]
+def hist_confs(tier):
+    return [(3, 3, 1), (2, 4, 1)] if tier == "quick" else [(3, 4, 1), (2, 5, 1), (3, 3, 2)]
+
+
+def hist_jobs(confs):
     jobs = []
     for k, (nn, me, mp) in enumerate(confs):
         wd = tlc.workdir(f"C18_hist{k}")
         jobs.append((f"{nn}n{me}e", "Clocks.tla", clock_consts(nn, me, mp), [], ["-dump", str(wd / "states")],
                      f"C18_hist{k}"))
+    return jobs
+
+
+def hist_consume(chk, confs, results):
     out = []
-    for k, ((name, res), (nn, me, mp)) in enumerate(zip(run_jobs(jobs), confs)):
+    for k, ((name, res), (nn, me, mp)) in enumerate(zip(results, confs)):
         chk.add_tlc(f"Clocks history enumeration {name}", res, count=False, note="terminal states = histories")
         f = tlc.WORK / f"C18_hist{k}" / "states.dump"
         for h in CK.histories_from_dump(f, me):
@@ -364,8 +385,19 @@ def run(tier, seed, replay=None):
     q = tier == "quick"
     if replay:
         return do_replay(chk, replay)
-    model_check(chk, tier)
     dev = known_open_devs()
+    # all TLC exploration jobs in one pool: clean models, sensitivity, history dumps, state graphs
+    j_mc, c_t, c_h = mc_jobs(tier), tour_confs(tier, dev), hist_confs(tier)
+    if os.environ.get("C18_SKIP_MC"):      # development aid (mutation runs): models do not depend on the repo
+        j_mc = []
+    j_t, j_h = tour_jobs(c_t), hist_jobs(c_h)
+    cache = os.environ.get("C18_CACHE")     # development aid: reuse TLC-generated schedules
+    cached = None
+    if cache and os.path.exists(cache):
+        cached = json.loads(open(cache).read())
+        j_t, j_h = [], []
+    results = run_jobs(j_mc + j_t + j_h)
+    mc_consume(chk, j_mc, results[:len(j_mc)])
 
     # ---------------- clocks ----------------
     ctraces, cmeta = [], {}
@@ -373,7 +405,11 @@ def run(tier, seed, replay=None):
     def clock_exec(nn, events, origin, **kw):
         tid = len(ctraces) + 1
         try:
-            pts, L, V, H, ids = CK.run_history(nn, events, **kw)
+            if origin == "random_simulation":
+                pts, L, V, H, ids = CK.run_history_sim(nn, events, kw["models"], kw["true_times"],
+                                                       kw.get("serialise", False))
+            else:
+                pts, L, V, H, ids = CK.run_history(nn, events, **kw)
         except Exception as ex:   # the real objects raised on a legal history
             chk.violation(f"clock_exception:{type(ex).__name__}", f"{type(ex).__name__}: {ex}",
                           {"half": "clocks", "nn": nn, "events": events, "origin": origin})
@@ -385,8 +421,15 @@ def run(tier, seed, replay=None):
                       "true_times": kw.get("true_times"), "serialise": kw.get("serialise", False)}
         chk.impl_steps += len(events)
 
-    hists = clock_histories(chk, tier)
-    cap = 6000 if q else len(hists)
+    if cached:
+        hists = [(nn, [tuple(e) for e in h]) for nn, h in cached["hists"]]
+        tours = [tuple(t) for t in cached["tours"]]
+    else:
+        hists = hist_consume(chk, c_h, results[len(j_mc) + len(j_t):])
+        tours = tour_consume(chk, c_t, results[len(j_mc):len(j_mc) + len(j_t)])
+        if cache:
+            open(cache, "w").write(json.dumps({"hists": hists, "tours": tours}))
+    cap = 2500 if q else 40000
     chosen = hists if len(hists) <= cap else rng.sample(hists, cap)
     chk.extra["clock_model_histories_total"] = len(hists)
     chk.extra["clock_model_histories_replayed"] = len(chosen)
@@ -396,7 +439,7 @@ def run(tier, seed, replay=None):
         clock_exec(nn, [(n, k, s) for (n, k, s, p) in h], "model", readings=[p * sc for (_, _, _, p) in h],
                    serialise=(i % 2 == 1))
         chk.replays += 1
-    n_rand = 700 if q else 12000
+    n_rand = 400 if q else 12000
     for i in range(n_rand):
         nn = 2 + i % 4
         ne = rng.randint(4, 14 if q else 30)
@@ -407,8 +450,8 @@ def run(tier, seed, replay=None):
             for _ in events:
                 t += rng.choice((0, 0, 1, 999, 10**6, 10**9, 7 * 10**9))
                 tt.append(t)
-            clock_exec(nn, events, "random_nodeclock", models=CK.random_models(rng, nn), true_times=tt,
-                       serialise=(i % 4 == 0))
+            clock_exec(nn, events, "random_simulation" if i % 4 == 2 else "random_nodeclock",
+                       models=CK.random_models(rng, nn), true_times=tt, serialise=(i % 4 == 0))
         else:
             # arbitrary readings, also stepping backwards
             base = rng.choice((0, 5, 10**9))
@@ -440,15 +483,14 @@ def run(tier, seed, replay=None):
                      "actions": acts}
         chk.impl_steps += len(acts)
 
-    tours = crdt_tours(chk, tier, rng, dev)
-    capt = 2500 if q else len(tours)
+    capt = 1000 if q else 20000
     chosen_t = tours if len(tours) <= capt else rng.sample(tours, capt)
     chk.extra["crdt_tour_paths_replayed"] = len(chosen_t)
     for (kind, nr, store, el, acts, origin) in chosen_t:
         crdt_exec(kind, nr, store, el, acts, origin)
         chk.replays += 1
     chk.exhaustive = len(chosen) == len(hists) and len(chosen_t) == len(tours)
-    n_plain = 500 if q else 8000
+    n_plain = 300 if q else 8000
     for i in range(n_plain):
         kind = ("OR", "G", "PN", "LWW", "OR")[i % 5]
         nr = 2 + i % 4
@@ -456,7 +498,7 @@ def run(tier, seed, replay=None):
         if "#1" in el:
             acts = drop_colliding(kind, nr, el, acts)
         crdt_exec(kind, nr, False, el, acts, "random_plain")
-    n_store = 100 if q else 1500
+    n_store = 80 if q else 1500
     for i in range(n_store):
         kind = ("G", "OR", "PN")[i % 3]
         nr = 2 + i % 3
@@ -464,10 +506,10 @@ def run(tier, seed, replay=None):
         crdt_exec(kind, nr, True, el, acts, "random_store")
 
     # ---------------- validation ----------------
-    cv, cm, cres = validate("ClocksTrace.tla", ctraces, "C18_ctrace", 2500)
+    cv, cm, cres = validate("ClocksTrace.tla", ctraces, "C18_ctrace", 1500 if q else 6000)
     for r in cres:
         chk.add_tlc("ClocksTrace batch", r, note="trace validation")
-    v, m, res = validate("CrdtTrace.tla", traces, "C18_trace", 900)
+    v, m, res = validate("CrdtTrace.tla", traces, "C18_trace", 800 if q else 3000)
     for r in res:
         chk.add_tlc(f"CrdtTrace batch (model as-code Dev={dev})", r, note="trace validation")
     chk.impl_traces = len(ctraces) + len(traces)
@@ -485,7 +527,7 @@ def run(tier, seed, replay=None):
     by_id = {t["id"]: t for t in traces}
     expl = classify_crdt(chk, failing, by_id, v, meta) if failing else {}
     n_known = 0
-    for tid in failing:
+    for tid in sorted(failing, key=lambda t: (len(expl.get(t) or []), v[t][1], t)):
         verdict, pos = v[tid]
         keys = expl.get(tid) or []
         desc = (f"{verdict} after step {pos} of {meta[tid]['kind']} schedule "
